@@ -182,7 +182,10 @@ func c20Faults(N int) {
 	w := &c20W{}
 	w.failAt = rt.IntIn("failAt", 1, 64)
 	w.perm = rt.Choice("permanent", 2) == 1
-	w.short = rt.Choice("short", 3) // 0, 1 or 2 bytes accepted by the failing call
+	w.short = rt.Choice("short", 4) // 0, 1 or 2 bytes accepted by the failing call; 3: all of them
+	if w.short == 3 {
+		w.short = 1 << 30 // (len(p), err): the data went out but e.g. a sync failed
+	}
 	err := LIB(w, n, func(i, j int) int { return 10*i + j })
 	if w.failed {
 		rt.Check(err != nil, "a Write failed but LIB returned nil")
@@ -203,6 +206,9 @@ func c20FaultsBig(ns []int) {
 	w.failAt = rt.IntIn("failAt", 1, 4000)
 	w.perm = false
 	w.short = 0
+	if rt.Choice("full", 2) == 1 {
+		w.short = 1 << 30
+	}
 	err := LIB(w, n, func(i, j int) int { return 10*i + j })
 	if w.failed {
 		rt.Check(err != nil, "a Write failed but LIB returned nil")
